@@ -2,7 +2,9 @@
 
 Model: spec/Ordering.tla transcribes `ufl.sorting.cmp_expr` as coded (explicit stack loop, one
 action per loop iteration, every terminal comparator) over a universe of terms of depth <= 2 (+3
-deeper ones) and states the intended meaning: cmp induces a total preorder whose equivalence
+deeper ones), plus a second slice of the universe ("repr": float / complex / integer literals whose
+reprs exercise every way `_cmp_terminal_by_repr` decides, including reprs that differ only in the zero
+padding of a digit run such as 1.5 / 1.05) and states the intended meaning: cmp induces a total preorder whose equivalence
 classes are structural equality modulo index/label numbers.
 
 (a) TLC executes the loop for every ordered pair (termination, result in {-1,0,1}, agreement of the
@@ -29,7 +31,7 @@ from .. import tlc
 from ..common import MachineryError, main_wrapper
 
 TC_NAMES = (
-    "Coefficient Constant Argument IntValue FloatValue Zero SpatialCoordinate FacetNormal MultiIndex Label "
+    "Coefficient Constant Argument IntValue FloatValue ComplexValue Zero SpatialCoordinate FacetNormal MultiIndex Label "
     "Indexed Variable Division Abs PositiveRestricted NegativeRestricted ExprList"
 ).split()
 
@@ -149,8 +151,12 @@ def materialise(t, cache):
         o = C.Argument(e.fs(0, sh), t["n"], None if t["p"] == -1 else t["p"])
     elif k == "int":
         o = C.IntValue(t["n"])
-    elif k == "float":
-        o = C.FloatValue(t["n"] / 10.0)
+    elif k in ("float", "floate", "cplx"):
+        txt = literal_text(t)
+        o = C.ComplexValue(complex(txt)) if k == "cplx" else C.FloatValue(float(txt))
+        if repr(o) != f"{t['nm']}({txt})":
+            # precondition of the spec's model of these reprs (python's shortest float repr)
+            raise MachineryError(f"literal {txt}: ufl/python write it as {o!r}, Ordering.tla models {t['nm']}({txt})")
     elif k == "zero":
         o = C.Zero(sh, tuple(i - 10 for i in t["ix"]), tuple(t["fd"]))
     elif k == "geo":
@@ -173,6 +179,21 @@ def materialise(t, cache):
     return o
 
 
+def _decimal(n, p):
+    m = abs(n)
+    return f"{'-' if n < 0 else ''}{m // 10**p}.{m % 10**p:0{p}d}"
+
+
+def literal_text(t):
+    """Decimal text of a float / complex literal of the spec (exact: built from the integer fields)."""
+    if t["k"] == "float":
+        return _decimal(t["n"], t["p"])
+    if t["k"] == "floate":
+        return f"{t['n']}e{'+' if t['d'] else '-'}{t['p']:02d}"
+    im, iq = t["fd"]
+    return f"({_decimal(t['n'], t['p'])}{'-' if im < 0 else '+'}{_decimal(abs(im), iq)}j)"
+
+
 def show(t):
     if t["k"] == "op":
         return t["nm"] + "(" + ", ".join(show(o) for o in t["ops"]) + ")"
@@ -185,8 +206,8 @@ def show(t):
         return f"Argument({t['n']},{'None' if t['p'] == -1 else t['p']})"
     if k == "int":
         return f"IntValue({t['n']})"
-    if k == "float":
-        return f"FloatValue({t['n'] / 10})"
+    if k in ("float", "floate", "cplx"):
+        return f"{t['nm']}({literal_text(t)})"
     if k == "zero":
         return f"Zero({tuple(t['sh'])},{tuple(i - 10 for i in t['ix'])})"
     if k == "geo":
@@ -359,7 +380,7 @@ def _mc():
     return "---- MODULE MC_Ordering ----\nEXTENDS Ordering\nMCTC == " + tlc.tla(real_typecodes()) + "\n====\n"
 
 
-def _cfg(sharing, milens, rule, big, printing):
+def _cfg(sharing, milens, rule, big, printing, part="main"):
     return (
         "CONSTANTS TC <- MCTC\n"
         f"Sharing = {'TRUE' if sharing else 'FALSE'}\n"
@@ -367,6 +388,7 @@ def _cfg(sharing, milens, rule, big, printing):
         f'MiLenRule = "{rule}"\n'
         f'ReprRule = "{probe_repr_rule()}"\n'
         f"Big = {'TRUE' if big else 'FALSE'}\n"
+        f'Slice = "{part}"\n'
         f"PrintTable = {'TRUE' if printing else 'FALSE'}\n"
     )
 
@@ -377,12 +399,13 @@ ALL_CFG = (
 )
 
 
-def _tlc_job(sharing, milens, rule, big, laws):
-    cfg = _cfg(sharing, milens, rule, big, True) + (ALL_CFG if laws else LOOP_CFG)
+def _tlc_job(sharing, milens, rule, big, laws, part="main"):
+    cfg = _cfg(sharing, milens, rule, big, True, part) + (ALL_CFG if laws else LOOP_CFG)
     if laws == "noeiz":
         cfg = cfg.replace("INVARIANT EquivImpliesZero\n", "")
     for attempt in (1, 2):
-        res = tlc.run("Ordering", cfg, mc_text=_mc(), mc_name="MC_Ordering", workers=6 if laws else 3, heap="4g", timeout=1500)
+        small = part != "main"
+        res = tlc.run("Ordering", cfg, mc_text=_mc(), mc_name="MC_Ordering", workers=2 if small else (6 if laws else 3), heap="1g" if small else "4g", timeout=1500)
         # a JVM that disappears without any TLC diagnostic (killed from outside) is retried once
         if res.outcome != "error" or "Error:" in res.stdout or attempt == 2:
             return res
@@ -391,7 +414,7 @@ def _tlc_job(sharing, milens, rule, big, laws):
 
 def run_models(ctx, jobs):
     """Run several TLC configurations concurrently (each is dominated by its start-up and the
-    single-threaded tabulation); jobs = [(sharing, milens, rule, big, laws)].
+    single-threaded tabulation); jobs = [(sharing, milens, rule, big, laws[, slice])].
     Each run: the loop state machine for every ordered pair (termination, result is a sign, state
     machine = tabulated function) and, if `laws`, the order laws over every triple.
     Returns [(universe, table dict, failure)], failure = None or (law, a, b, c) (1-based)."""
@@ -406,7 +429,8 @@ def run_models(ctx, jobs):
             # outside C29 (such terms differ only in index/label numbers): confirm on the real code,
             # note it, and check the other laws without this one
             report_law_failure(ctx, fail[0], [U[fail[1] - 1], U[fail[2] - 1], U[fail[3] - 1]], job[0], Keys())
-            U, T, fail = _account(ctx, job[:4] + ("noeiz",), _tlc_job(*job[:4], "noeiz"))
+            job = job[:4] + ("noeiz",) + job[5:]
+            U, T, fail = _account(ctx, job, _tlc_job(*job))
         out.append((U, T, fail))
     return out
 
@@ -416,9 +440,9 @@ def run_model(ctx, sharing, milens, rule, big, laws):
 
 
 def _account(ctx, job, res):
-    sharing, milens, rule, big, laws = job
+    sharing, milens, rule, big, laws = job[:5]
     ctx.add_tlc(res)
-    what = f"Ordering sharing={sharing} milens={sorted(milens)} laws={laws}"
+    what = f"Ordering slice={job[5] if len(job) > 5 else 'main'} sharing={sharing} milens={sorted(milens)} laws={laws}"
     fail = None
     if not res.ok:
         if laws and res.outcome == "invariant" and res.violated in LAWS and res.trace:
@@ -675,6 +699,26 @@ def branch_coverage(U, T, sharing):
         raise MachineryError("vacuous universe: the `r is s` shortcut is never taken")
 
 
+def repr_coverage(U, T, rrule):
+    """Slice "repr": every way _cmp_terminal_by_repr decides must be decisive for some pair."""
+    seen = {r["br"] for r in T.values()}
+    need = {"repr", "typecode"} | ({"repr-tie"} if rrule == "natural" else set())
+    if need - seen:
+        raise MachineryError(f"vacuous repr slice: branches never decisive: {sorted(need - seen)}")
+    lit = [i + 1 for i, t in enumerate(U) if t["k"] in ("float", "floate", "cplx", "int")]
+    # some class of >= 3 reprs shares one natural key (transitivity inside a tie class)
+    if rrule == "natural":
+        ties = {}
+        for i in lit:
+            ties[i] = [j for j in lit if j != i and T[(i, j)]["br"] == "repr-tie"]
+        if not any(len(v) >= 2 for v in ties.values()):
+            raise MachineryError("vacuous repr slice: no three reprs share one natural key")
+    ops = [i + 1 for i, t in enumerate(U) if t["k"] == "op"]
+    deep = "repr-tie" if rrule == "natural" else "repr"
+    if not any(T[(i, j)]["br"] == deep for i in ops for j in ops):
+        raise MachineryError("vacuous repr slice: no pair of operators is decided by the reprs of nested literals")
+
+
 def replay_predicted(ctx, U, T, sharing, keys, first):
     """TLC reported that a law fails on the as-coded model.  Replay TLC's counterexample and, for a
     deterministic report, the smallest predicted counterexamples of every (law, branch) class."""
@@ -705,7 +749,11 @@ def model_part(ctx, keys):
     big = ctx.tier == "thorough"
     full = (1, 2)
     ctx.cov["model_triples"] = 0
-    (U, T, fail), (U2, T2, _) = run_models(ctx, [(True, full, rule, big, True), (False, full, rule, big, False)])
+    rrule = probe_repr_rule()
+    ctx.cov["repr_transcription"] = rrule
+    (U, T, fail), (U2, T2, _), rs, ru = run_models(
+        ctx, [(True, full, rule, big, True), (False, full, rule, big, False), (True, full, rule, big, True, "repr"), (False, full, rule, big, True, "repr")]
+    )
     branch_coverage(U, T, True)
     branch_coverage(U2, T2, False)
     ctx.cov["universe_terms"] = len(U)
@@ -748,12 +796,42 @@ def model_part(ctx, keys):
                 ctx.cov["model_triples"] += len(Ur) ** 3
             conform(ctx, Ur, Tr, sharing, keys)
 
+    # ---- slice "repr": laws on the as-coded model, then conformance like the main slice ----
+    deferred = []
+
+    def bound(Ux, Tx, sharing):
+        # a deviation from the transcription that breaks no law on these terms is a MachineryError, but only
+        # after the other slices / sharing modes had their chance to show that the real order is broken
+        try:
+            conform(ctx, Ux, Tx, sharing, keys)
+        except MachineryError as ex:
+            deferred.append(ex)
+
+    ctx.cov["repr_slice_terms"] = len(rs[0])
+    if rs[0] != ru[0]:
+        raise MachineryError("repr slice: universe differs between the two sharing modes")
+    for sharing, (Ur, Tr, fr) in ((True, rs), (False, ru)):
+        repr_coverage(Ur, Tr, rrule)
+        if fr is not None:
+            replay_predicted(ctx, Ur, Tr, sharing, keys, fr)
+            ctx.count("laws_not_rechecked_after_unmasked_failure")
+        else:
+            ctx.cov["model_triples"] += len(Ur) ** 3
+            if predicted_failures(Ur, Tr):
+                raise MachineryError("TLC accepted the laws on the repr slice but the printed table contains a failure")
+        bound(Ur, Tr, sharing)
+    bound(ru[0], ru[1], "per-term")
+
     # ---- (b) conformance ----
     for sharing in (True, False):
         Um, Tm, _ = tables[sharing]
-        conform(ctx, Um, Tm, sharing, keys)
+        bound(Um, Tm, sharing)
     Um, Tm, _ = tables[False]  # the sign does not depend on which sub-objects are shared
-    conform(ctx, Um, Tm, "per-term", keys)
+    bound(Um, Tm, "per-term")
+    if deferred:
+        if not ctx.n_viol:
+            raise deferred[0]
+        ctx.count("conformance_deviations_without_law_failure", len(deferred))
     i, j = 1, 2
     ctx.sample({"kind": "model-pair", "a": show(U[i - 1]), "b": show(U[j - 1]), "predicted_cmp": T[(i, j)]["c"], "branch": T[(i, j)]["br"]})
     return tables
